@@ -1534,6 +1534,27 @@ KILLS = [
     (_WS, "                'bytes': bytes(payload),\n", "                'bytes': bytes(payload[:-1]),\n", 'WebSocket.send_data#payload-forwarded-unchanged-in-one-send-event'),
     # spec-version predicate inverted
     (_WS, "        self._supports_accept_headers = ver != '2.0'\n", "        self._supports_accept_headers = ver == '2.0'\n", 'WebSocket.__init__#accept-headers-supported-from-spec-2.1'),
+    # --- one per input freed by the fixed-input audit ---------------------------------------------------------------------
+    # the server refuses the close CODE (Daphne: "invalid close code"): the 3011 fallback only fires for falcon's own ValueError
+    (_APP, "            if 'invalid close code' in str(ex).lower():\n", "            if isinstance(ex, ValueError):\n",
+     '_handle_websocket#close-code-refused-by-the-server-falls-back-to-3011'),
+    # HTTPStatus raised by process_request_ws is swallowed ("short-circuit" as in the HTTP pipeline): routing and the responder still run
+    (_APP, "            for process_request_ws in request_mw:\n                await process_request_ws(req, web_socket)\n",
+     "            for process_request_ws in request_mw:\n                try:\n                    await process_request_ws(req, web_socket)\n"
+     "                except HTTPStatus:\n                    break\n", '_handle_websocket#middleware-then-responder-in-order'),
+    # params not initialised before routing: a custom handler for an exception raised by process_request_ws gets None instead of {}
+    (_APP, "        params: Dict[str, Any] = {}\n\n        request_mw, resource_mw = self._middleware_ws\n",
+     "        params = None  # type: ignore[assignment]\n\n        request_mw, resource_mw = self._middleware_ws\n",
+     '_handle_websocket#custom-handler-gets-the-request-no-response-the-raised-exception-and-the-route-params'),
+    # the socket is passed to every custom error handler, also to one that does not declare a `ws` parameter
+    (_APP, "                if ws and 'ws' in get_argnames(err_handler):\n", "                if ws:\n",
+     '_handle_websocket#custom-handler-without-a-ws-parameter-gets-the-four-documented-arguments-only'),
+    # a WebSocketDisconnected raised by a custom error handler is swallowed instead of propagating to the server
+    (_APP, "            except HTTPError as error:\n                await self._http_error_handler(req, resp, error, params, ws=ws)\n",
+     "            except HTTPError as error:\n                await self._http_error_handler(req, resp, error, params, ws=ws)\n"
+     "            except WebSocketDisconnected:\n                pass\n", '_handle_websocket#error-from-custom-handler-propagates'),
+    # accept() WITHOUT arguments selects an (empty) subprotocol; accept(None, ...) is unaffected
+    (_WS, "        subprotocol: Optional[str] = None,\n", "        subprotocol: Optional[str] = '',\n", 'WebSocket.accept#sends-exactly-one-accept-event'),
 ]
 HARMLESS = [
     # two independent statements reordered
@@ -1570,7 +1591,8 @@ FINDINGS = [
 
 ASSUMPTIONS = [
     'ASGI server, send: either takes the event and returns, or raises; what it raises is one of: OSError (spec 2.4 "send on a closed connection"), OSError chained from a '
-    '"received NNNN ..." websockets error, an error whose text contains "code = 1000 (OK)", autobahn\'s "protocol accepted must be from the list", or any other exception '
+    '"received NNNN ..." websockets error, an error whose text contains "code = 1000 (OK)", autobahn\'s "protocol accepted must be from the list", an error whose text '
+    'contains "invalid close code" (Daphne refusing the code of a close event; the connection stays), or any other exception '
     '(propagated unchanged); the first four mean the connection is gone (monitor LOST)',
     'classification of server errors by message text is checked on these representative messages only (regular expressions over arbitrary text are out of reach)',
     'ASGI server, receive (after the handshake): websocket.receive with text/bytes each missing, None or a payload (all nine shapes), or websocket.disconnect with or without code; '
@@ -1582,6 +1604,22 @@ ASSUMPTIONS = [
     'media handler serialize/deserialize functions are opaque total functions (C12)',
 ]
 NOT_DECIDED = [
+    # --- inputs that stay fixed (fixed-input audit) -------------------------------------------------------------------------
+    '_handle_websocket, server errors: the framework\'s own sends at app level are close events, which close() hands to the server without translation; the harness '
+    'lets the server return, lose the connection (OSError), fail otherwise, and (slice S_CODE_REFUSED) refuse the close code.  The three other lost-connection shapes '
+    '(OSError with a "received 1001" cause, "code = 1000 (OK)", rejected subprotocol) are left out at app level: they are distinguished only by '
+    'WebSocket._translate_webserver_error, which every operation harness of WebSocket covers with all seven shapes; at app level they would re-report the recorded '
+    'finding "second close after a lost connection" under new path labels',
+    '_handle_websocket, cross products NOT taken (see S_BASE ... S_HANDLER_KINDS): "server refuses the close code" x (middleware, custom handler, responder outcomes '
+    'other than WebSocketDisconnected / unexpected exception); "middleware raises HTTPStatus / WebSocketDisconnected / the custom-handled exception" x responder outcomes '
+    '(the responder must not run then); "handler without ws parameter" and "handler raises WebSocketDisconnected" x middleware.  Each of these inputs is read at one '
+    'place (_ws_cleanup_on_error; the single try block of _handle_websocket; _handle_exception) that does not look at the other',
+    'the request object is a stub with is_websocket == True and method "GET" (falcon.asgi.Request derives is_websocket from scope["type"], C06/C09); the scope is a concrete '
+    'dict (only WebSocket.__init__ reads it: harness ws_init varies subprotocols); handshake_abandoned: three concrete non-connect first events, no middleware outcome matters',
+    'close(code): None, every int, and one non-int ("1000"); bool codes (True is an int) not considered.  send_media(payload_type): default, TEXT, BINARY (the documented values). '
+    'accept()/close() with every argument omitted are covered (documented defaults); partially omitted keyword forms are the same call',
+    'operation harnesses: ws.subprotocols is () (no operation reads it); the pump may run (and see the disconnect) in every state in buffered mode (over-approximation)',
+    # ---------------------------------------------------------------------------------------------------------------------
     'App.__call__: dispatch of scope type "websocket" (and of the spec version string) to _handle_websocket -- read, not proved',
     '_BufferedReceiver (pump, queue, waiters, receive ordering in buffered mode): property C18; here an opaque stub',
     'asyncio cancellation / BaseException during a conversation (not caught by "except Exception": no close is sent) -- outside the quantifier of the statement',
